@@ -381,7 +381,14 @@ func ZZC10_reg_history() {
 // pre-state, 2 (3 thorough) tasks each push or delete their own artifact; the
 // tasks interleave at request granularity in every possible way (zzTurn).
 // When all have finished the referrers are exactly pre-state +/- the updates.
-func ZZC10_reg_concurrent() {
+func ZZC10_reg_concurrent() { zzRegConcurrent(2+zzTier(), false) }
+
+// The same with one updating task and a ReferrerList running beside it: once
+// both have finished, a further listing still reports exactly the live set
+// (a listing that overlapped an update must not leave a stale cache entry).
+func ZZC10_reg_list_race() { zzRegConcurrent(1, true) }
+
+func zzRegConcurrent(nTasks int, lister bool) {
 	w := zzRegSetup()
 	ctx := context.Background()
 	for i := range w.arts {
@@ -394,7 +401,6 @@ func ZZC10_reg_concurrent() {
 		// the cache may hold the pre-state
 		w.check(ctx)
 	}
-	nTasks := 2 + zzTier()
 	isDel := make([]bool, nTasks)
 	for t := 0; t < nTasks; t++ {
 		isDel[t] = zzBool("task_deletes")
@@ -404,6 +410,14 @@ func ZZC10_reg_concurrent() {
 		return id
 	}
 	var wg sync.WaitGroup
+	if lister {
+		wg.Add(1)
+		go func() {
+			defer wg.Done()
+			defer zzTurnDone(9)
+			_, _ = w.rg.ReferrerList(context.WithValue(ctx, zzTaskKey{}, 9), w.rSubj)
+		}()
+	}
 	errs := make([]error, nTasks)
 	for t := 0; t < nTasks; t++ {
 		wg.Add(1)
